@@ -59,6 +59,8 @@ HNAMES = [b"header", b"X-Custom", b"Accept", b"Accept-Encoding", b"accept-encodi
 PRIME_CTS = {"text/plain; charset=iso-8859-1": "latin-1", "text/plain; charset=latin-1": "latin-1", "text/html; charset=ISO-8859-15": "iso-8859-15",
              "application/x-www-form-urlencoded; charset=windows-1252": "cp1252", "text/plain; charset=ascii": "utf-8",
              "text/plain; charset=utf-8": "utf-8", "application/json": "utf-8"}
+TE_SPELLINGS = [b"chunked", b"Chunked", b"CHUNKED", b"cHuNkEd", b"gzip, chunked", b"gzip, Chunked", b"gzip,CHUNKED", b"gzip ,\tchunked",
+                b"deflate, gzip, Chunked", b"identity, chunked", b"chunked, gzip", b"gzip", b"x-unknown, chunked"]
 CTYPES = [b"text/plain", b"text/plain; charset=utf-8", b"application/json", b"text/plain; charset=latin-1",
           b"text/plain; charset=utf-16", b"application/octet-stream", b"text/html; charset=bogus"]
 
@@ -111,7 +113,8 @@ class Check(PropertyCheck):
                   "paths against a minimal reader written in the model; the strict Python reference parser judges the real bytes.")
     technique = "Lean 4 proof (induction over arguments/bytes) + execution of the real exports under real shells with stub programs"
     rule = ("requests with ~60% plain and ~40% hostile material (shell metacharacters, quotes, control characters, %, "
-            "backslashes, non-UTF-8 bytes; never NUL) in method, host, path, header names and values; host forms x ports (IPv6 literals compressed/full/v4-mapped, "
+            "backslashes, non-UTF-8 bytes; never NUL) in method, host, path, header names and values; Transfer-Encoding in its equivalent spellings (Chunked, CHUNKED, 'gzip, Chunked', inner "
+            "whitespace; without Content-Length) for the raw/curl/httpie exports; host forms x ports (IPv6 literals compressed/full/v4-mapped, "
             "IPv4, names, IDN, trailing dot, with default and non-default ports; Host header / :authority / request.host as the "
             "source, with and without brackets and ports); bodies: none, text soups, "
             "binary, non-UTF-8 charsets; export_preserve_original_ip on/off with several peer addresses; each case exports ONE flow "
@@ -179,6 +182,15 @@ class Check(PropertyCheck):
                    "preserve": int(rng.chance(0.4)), "peer": rng.pick([None, "1.2.3.4", "::1", "address", "example.com"]),
                    "set_content": int(rng.chance(0.85)), "exe": int(rng.chance(0.1)),
                    "order": rng.pick(self.ORDERS)}
+            if rng.chance(0.15):
+                # chunked transfer coding in its equivalent spellings (case, lists, inner optional whitespace), no Content-Length
+                te = rng.pick(TE_SPELLINGS)
+                case["headers"] = [h for h in case["headers"] if unhx(h[0]).lower() not in (b"content-length", b"transfer-encoding", b"content-encoding")] \
+                    + [[hx(rng.pick([b"Transfer-Encoding", b"transfer-encoding", b"TRANSFER-ENCODING"])), hx(te)]]
+                case["set_content"] = 0; case["version"] = "HTTP/1.1"; case["authority"] = 0
+                if case["content_hex"] is None or rng.chance(0.7):
+                    case["content_hex"] = hx(rng.pick([b"chunked body", b"a=1&b=2", b"x", b"line1\r\nline2", bytes(range(1, 40))]))
+                if rng.chance(0.15): case["content_hex"] = None
             if rng.chance(0.45):
                 # a history: 1-3 other messages get .text assigned / read under Content-Type values, some of which the request
                 # under test then shares (with a body that IS valid under the declared charset)
@@ -642,13 +654,19 @@ class Check(PropertyCheck):
         if not line[0] or not tgt or any(c in ws for c in line[0] + tgt): return False
         if not refparsers.VERSION.match(line[4]) or line[4] == b"HTTP/2.0": return False
         content = unhx(obs["clean_content_hex"])
-        cl = []
+        cl, te = [], []
         for k, v in obs["clean_headers"]:
             k, v = unhx(k), unhx(v)
             if not refparsers.TOKEN.match(k): return False
             if any(c in b"\r\n\x00" for c in v) or v != v.strip(b" \t"): return False
-            if k.lower() == b"transfer-encoding": return False
+            if k.lower() == b"transfer-encoding": te.append(v)
             if k.lower() == b"content-length": cl.append(v)
+        if te:
+            # chunked framing (RFC 9112 §6.1/§7: coding names are case-insensitive, list with optional whitespace): the
+            # request is representable when chunked is the final coding, all codings are known, no Content-Length, HTTP/1.1
+            codings = [c.strip(b" \t").lower() for v in te for c in v.split(b",")]
+            return (not cl and line[4] == b"HTTP/1.1" and codings[-1] == b"chunked" and codings.count(b"chunked") == 1
+                    and all(c in refparsers.KNOWN_CODINGS for c in codings))
         if cl:
             return len(cl) == 1 and cl[0] == b"%d" % len(content)
         return not content
